@@ -30,12 +30,12 @@ import (
 
 var c12mix = []weighted{
 	{"create", 10}, {"delete", 9}, {"join", 22}, {"leave", 14}, {"coord", 4}, {"pause", 2}, {"resume", 2},
-	{"snap", 6}, {"restart", 6}, {"advance", 8}, {"settle", 8}, {"poll", 5}, {"install", 3},
+	{"snap", 6}, {"restart", 6}, {"advance", 8}, {"settle", 8}, {"poll", 5}, {"install", 3}, {"advpoll", 6},
 }
 
 // the directed family: one stream, joins and leaves (the balance clause only speaks about groups that consume one stream)
 var c12single = []weighted{
-	{"join", 40}, {"leave", 26}, {"coord", 4}, {"snap", 5}, {"restart", 5}, {"advance", 6}, {"settle", 10}, {"poll", 5}, {"install", 3},
+	{"join", 40}, {"leave", 26}, {"coord", 4}, {"snap", 5}, {"restart", 5}, {"advance", 6}, {"settle", 10}, {"poll", 5}, {"install", 3}, {"advpoll", 8},
 }
 
 func genC12(r *simrt.Rand, tier string, idx int) *hx.Program {
